@@ -9,7 +9,7 @@ PROP = {
     "rule": "cases = generated scripts of 6-36 messages for a push-diagnostics client: open/change bursts shorter than the 500 ms debounce, closes, watched-file create/change/delete events, requests, pumps and virtual-time advances, each under 3 schedule seeds; self-contained files (diagnostics depend on the file's own text only, unique per version); "
             "at quiescence the last publication of every open file must equal diagnose_file on its current content, and a file no longer in the analysis must end with an empty publication; distinct = hash of (interleaving, publication count); non-trivial = >= 2 publications and >= 1 open file judged",
     "min_nontrivial": {"quick": 800, "thorough": 40000},
-    "max_secs": {"quick": 600, "thorough": 1200},
+    "max_secs": {"quick": 600, "thorough": 1500},
     "require_clauses": ["converged-state-checked", "publications-observed", "removed-file-observed"],
     "assumptions": COMMON_ASSUME + ["expected diagnostics are computed by diagnose_file on the server's own analysis at quiescence (index drift is C08's subject)", "files whose analysed text is not the last notified text are left to C27/C29"],
     "level_text": "Real debounced diagnostic tasks, cancellation tokens and publication path; ~4800 (quick) script executions with every debounce interval elapsed in virtual time before judging.",
